@@ -34,7 +34,8 @@ MANIFEST = {
             'merge_grouping_independent (associativity: how a join groups >=3 inbound contexts is irrelevant, no tie hypothesis), '
             'published_data_order_independent (WHOLE fork/join publish histories: listing the rows of every join in another order '
             'shows every task the same leaf whenever its publishers have a causally latest one; C05Causal, hypothesis shape-stable '
-            'republication).',
+            'republication), join_rows_order_independent (a join with ANY number of inbound rows, and the final context over '
+            'any number of end tasks read in batches of any size: another row order shows the same leaf; C05Final).',
     'note': 'The theorems are about Mistral.Engine (one event = one committed transaction; data flow / expressions / policies / '
             'with-items / sub-workflows outside): published variables and output are covered by merge_order_independent (C05) and '
             'the paired runs only. Outcome = workflow state + SET of rows: the NUMBER of executions of a task that is activated '
@@ -50,7 +51,7 @@ RULE = ('stream engine (mode paired): program x oracle x two schedules (+evict, 
         'pause/resume rounds x cache eviction on/off on the REAL engine, outcome at quiescence vs Mistral.Sem; non-trivial = '
         'a join, a failing task or an operator command; distinct = distinct (definition, oracle, schedule seed, commands, evict); stream ctx as in C05 (the real data-flow functions on generated publish histories, every inbound context in all row orders, against Mistral.Ctx + order-independence monitor + the leaf-granular causal monitor on every row order; stream hist: whole histories against Mistral.Hist)')
 TRUSTED = ['harness seams replaced by recorders']
-LEAN_MODULES = ['Mistral.Props.C02', 'Mistral.Props.C02Sem']
+LEAN_MODULES = ['Mistral.Props.C02', 'Mistral.Props.C02Sem', 'Mistral.Props.C01X']
 
 
 def correspond(ctx):
